@@ -415,13 +415,17 @@ impl<'m> MapSession<'m> {
             }
             "eq_other" => {
                 // build another map from the key list (payload op.pl) and compare
-                let other: HashMap<Key, Val, H> = HashMap::with_hasher(H::default());
-                {
-                    let g = other.guard();
-                    for k in &op.keys {
-                        other.insert(Key::new(*k, 0), Val::new(fresh_uid(), op.pl), &g);
+                // building the other operand is not part of the comparison: hooks are ignored
+                let other: HashMap<Key, Val, H> = crate::sched::suppressed(|| {
+                    let other = HashMap::with_hasher(H::default());
+                    {
+                        let g = other.guard();
+                        for k in &op.keys {
+                            other.insert(Key::new(*k, 0), Val::new(fresh_uid(), op.pl), &g);
+                        }
                     }
-                }
+                    other
+                });
                 let eq = *map == other;
                 out.insert("ok".into(), json!(eq as u8));
             }
@@ -511,14 +515,16 @@ impl<'m> SetSession<'m> {
             };
         }
         let other_set = |keys: &[u32]| -> HashSet<Key, H> {
-            let o: HashSet<Key, H> = HashSet::with_hasher(H::default());
-            {
-                let g = o.guard();
-                for k in keys {
-                    o.insert(Key::new(*k, 0), &g);
+            crate::sched::suppressed(|| {
+                let o: HashSet<Key, H> = HashSet::with_hasher(H::default());
+                {
+                    let g = o.guard();
+                    for k in keys {
+                        o.insert(Key::new(*k, 0), &g);
+                    }
                 }
-            }
-            o
+                o
+            })
         };
         match op.op.as_str() {
             "contains_key" | "contains" => {
